@@ -11,7 +11,7 @@ from fractions import Fraction
 
 import z3
 
-from .nums import Sym, SymInt, SymComplex, SymBool, Unsupported, cur, RV, ExactInt
+from .nums import Sym, SymInt, SymComplex, SymBool, Unsupported, cur, RV, ExactInt, frac_of_float
 
 
 @contextlib.contextmanager
@@ -158,7 +158,7 @@ class Angle:
     if isinstance(o, Angle): raise Unsupported("pi * pi")
     if isinstance(o, (int, Fraction, ExactInt)) and not isinstance(o, bool):
       return Angle(self.q * Fraction(int(o) if isinstance(o, ExactInt) else o))
-    if isinstance(o, float): return Angle(self.q * Fraction(repr(o)))
+    if isinstance(o, float): return Angle(self.q * frac_of_float(o))
     if isinstance(o, Sym):
       if o.c is not None: return Angle(self.q * o.c)
       raise Unsupported("pi times a symbolic value")
@@ -167,7 +167,7 @@ class Angle:
 
   def __truediv__(self, o):
     if isinstance(o, (int, Fraction, ExactInt)) and not isinstance(o, bool): return Angle(self.q / Fraction(int(o) if isinstance(o, ExactInt) else o))
-    if isinstance(o, float): return Angle(self.q / Fraction(repr(o)))
+    if isinstance(o, float): return Angle(self.q / frac_of_float(o))
     if isinstance(o, Sym) and o.c is not None: return Angle(self.q / o.c)
     if isinstance(o, Angle): return Sym.const(self.q / o.q)
     return NotImplemented
